@@ -556,6 +556,42 @@ func lockPairing(c *Ctx, sel func(fn *ssa.Function) bool) {
 			if !acquires[u.Class] {
 				continue
 			}
+			if u.Some {
+				// held on some paths only.  That is a double release exactly when every path to this
+				// point did acquire the lock (an acquisition of the class dominates the release — for a
+				// deferred one, its registration): then some path has released it in between.  Locks
+				// taken on one branch and released on the matching one are left alone
+				anchor := u.At
+				if u.Defer != nil {
+					anchor = u.Defer
+				}
+				dominated := false
+				for _, ci := range callsIn(fn) {
+					op, ok := asLockOp(ci)
+					if !ok || !op.Acquire || op.Class != u.Class {
+						continue
+					}
+					if _, isDefer := ci.(*ssa.Defer); isDefer {
+						continue
+					}
+					if ci.Block() == anchor.Block() {
+						for _, in := range ci.Block().Instrs {
+							if in == ssa.Instruction(ci) {
+								dominated = true
+								break
+							}
+							if in == anchor {
+								break
+							}
+						}
+					} else if ci.Block().Dominates(anchor.Block()) {
+						dominated = true
+					}
+				}
+				if !dominated {
+					continue
+				}
+			}
 			pos := p.InstrPos(u.At)
 			what := "Unlock"
 			if u.Defer != nil {
@@ -569,7 +605,7 @@ func lockPairing(c *Ctx, sel func(fn *ssa.Function) bool) {
 					}
 				}
 			}
-			bad = append(bad, fmt.Sprintf("%s: %s of %s runs with the lock not held on any path reaching it (it was already released on this path): fatal error \"sync: Unlock of unlocked RWMutex\"", pos, what, u.Class))
+			bad = append(bad, fmt.Sprintf("%s: %s of %s runs with the lock already released on a path reaching it: fatal error \"sync: Unlock of unlocked RWMutex\"", pos, what, u.Class))
 		}
 		// may-panic calls while a lock is held without a deferred unlock
 		deferred := map[string]bool{}
